@@ -809,3 +809,180 @@ pub fn run_one<T: Reg>(r: &mut Rec) {
     let mut d: Drv<T> = Drv::new(r);
     d.run();
 }
+
+// ---------------------------------------------------------------------------------------------
+// specification -> implementation: replay behaviours generated by TLC (spec/SimRegister.tla) on the real object and
+// compare the abstract state after every step.  Input: a text rendering of TLC's JSON (see gen/checks.py: sim_leg).
+pub struct Step {
+    pub op: String,
+    pub s: usize,
+    pub t: usize,
+    pub j: usize,
+    pub i: usize,
+    pub v: u128,
+    pub a: u128,
+    pub b: u128,
+    pub outk: String,
+    pub outv: u128,
+    pub outname: String,
+}
+
+fn parse_bits(s: &str) -> u128 {
+    if s == "-" {
+        return 0;
+    }
+    s.split(',').fold(0u128, |acc, x| acc | (1u128 << x.parse::<u32>().unwrap()))
+}
+
+pub fn parse_step(line: &str) -> Step {
+    let p: Vec<&str> = line.split(' ').collect();
+    let slot = |x: &str| if x == "a" { 0 } else { 1 };
+    Step {
+        op: p[1].to_string(),
+        s: slot(p[2]),
+        t: slot(p[3]),
+        j: p[4].parse().unwrap(),
+        i: p[5].parse().unwrap(),
+        v: parse_bits(p[6]),
+        a: parse_bits(p[7]),
+        b: parse_bits(p[8]),
+        outk: p[9].to_string(),
+        outv: parse_bits(p[10]),
+        outname: if p[11] == "-" { String::new() } else { p[11].to_string() },
+    }
+}
+
+pub fn replay_behaviour<T: Reg>(beh: usize, steps: &[Step], out: &mut Vec<String>) -> usize {
+    let mut sl: [T; 2] = [T::zero(), T::zero()];
+    for (n, st) in steps.iter().enumerate() {
+        let f = if st.j > 0 { st.j - 1 } else { 0 };
+        let mut note: Option<String> = None;
+        match st.op.as_str() {
+            "new" => sl[st.s] = T::new(st.v),
+            "zero" => sl[st.s] = T::zero(),
+            "default" => sl[st.s] = T::default_const(),
+            "copy" => sl[st.t] = sl[st.s],
+            "rewrap" => {
+                let x = sl[st.s];
+                match catch_unwind(AssertUnwindSafe(|| T::new(x.raw()))) {
+                    Ok(y) => sl[st.t] = y,
+                    Err(_) => note = Some("raw_value()/new_with_raw_value panicked".into()),
+                }
+            }
+            "raw" => {
+                let x = sl[st.s];
+                match catch_unwind(AssertUnwindSafe(|| x.raw())) {
+                    Ok(r) => {
+                        if r != st.outv {
+                            note = Some(format!("raw_value() expected={} observed={}", bits_json(st.outv), bits_json(r)));
+                        }
+                    }
+                    Err(_) => note = Some("raw_value() panicked".into()),
+                }
+            }
+            "get" => {
+                let x = sl[st.s];
+                match catch_unwind(AssertUnwindSafe(|| x.get(f, st.i))) {
+                    Ok(o) => {
+                        let ok = match (&o, st.outk.as_str()) {
+                            (Obs::Bool(b), "bool") => (*b as u128) == st.outv,
+                            (Obs::Bits(v, _), "bits") => *v == st.outv,
+                            (Obs::Var(nm), "var") => *nm == st.outname,
+                            (Obs::Ok(nm), "ok") => *nm == st.outname,
+                            (Obs::Err(v), "err") => *v == st.outv,
+                            _ => false,
+                        };
+                        if !ok {
+                            note = Some(format!("getter expected={}:{}:{} observed={:?}", st.outk, bits_json(st.outv), st.outname, o));
+                        }
+                    }
+                    Err(_) => note = Some("getter panicked".into()),
+                }
+            }
+            "with" => {
+                let x = sl[st.s];
+                match catch_unwind(AssertUnwindSafe(|| x.with(f, st.i, st.v))) {
+                    Ok(y) => sl[st.t] = y,
+                    Err(_) => note = Some("with_ panicked".into()),
+                }
+            }
+            "set" => {
+                let mut x = sl[st.s];
+                if catch_unwind(AssertUnwindSafe(|| x.set(f, st.i, st.v))).is_err() {
+                    note = Some("set_ panicked".into());
+                }
+                sl[st.s] = x;
+            }
+            "getoob" => {
+                let x = sl[st.s];
+                if catch_unwind(AssertUnwindSafe(|| x.get(f, st.i))).is_ok() {
+                    note = Some("getter did not panic on an out-of-range index".into());
+                }
+            }
+            "withoob" => {
+                let x = sl[st.s];
+                if !T::meta()[f].writable {
+                    continue;
+                }
+                let v = if T::meta()[f].legal.is_empty() { 0 } else { T::meta()[f].legal[0] };
+                if catch_unwind(AssertUnwindSafe(|| x.with(f, st.i, v))).is_ok() {
+                    note = Some("with_ did not panic on an out-of-range index".into());
+                }
+            }
+            "setoob" => {
+                let mut x = sl[st.s];
+                if !T::meta()[f].writable {
+                    continue;
+                }
+                let v = if T::meta()[f].legal.is_empty() { mask(T::meta()[f].w) } else { T::meta()[f].legal[0] };
+                if catch_unwind(AssertUnwindSafe(|| x.set(f, st.i, v))).is_ok() {
+                    note = Some("set_ did not panic on an out-of-range index".into());
+                }
+                sl[st.s] = x;
+            }
+            other => panic!("unknown replay op {}", other),
+        }
+        if note.is_none() {
+            for (k, exp) in [(0usize, st.a), (1usize, st.b)] {
+                let x = sl[k];
+                let r = catch_unwind(AssertUnwindSafe(|| x.raw()));
+                match r {
+                    Ok(r) if r == exp && x.store() == exp => {}
+                    Ok(r) => {
+                        note = Some(format!(
+                            "state of slot {} after the step: expected={} raw_value()={} storage={}",
+                            sl_name(k), bits_json(exp), bits_json(r), bits_json(x.store())
+                        ))
+                    }
+                    Err(_) => note = Some("raw_value() panicked".into()),
+                }
+            }
+        }
+        if let Some(nt) = note {
+            out.push(format!("MISMATCH beh={} step={} op={} field={} idx={} :: {}", beh, n + 1, st.op, st.j, st.i, nt));
+            return n + 1;
+        }
+    }
+    steps.len()
+}
+fn sl_name(i: usize) -> &'static str {
+    if i == 0 {
+        "a"
+    } else {
+        "b"
+    }
+}
+
+pub fn read_behaviours(path: &str) -> Vec<(usize, usize, Vec<Step>)> {
+    let text = std::fs::read_to_string(path).unwrap();
+    let mut v: Vec<(usize, usize, Vec<Step>)> = Vec::new();
+    for line in text.lines() {
+        if let Some(rest) = line.strip_prefix("B ") {
+            let p: Vec<&str> = rest.split(' ').collect();
+            v.push((p[0].parse().unwrap(), p[1].parse().unwrap(), Vec::new()));
+        } else if line.starts_with("S ") {
+            v.last_mut().unwrap().2.push(parse_step(line));
+        }
+    }
+    v
+}
